@@ -112,6 +112,19 @@ def _one_run(job):
         slots[4] = slot_tags("efield", 4)
         res["syn2"] = sim.data.synthetic.data.copy()
         res["ef2"] = [sim.get_efield(s, f).field.copy() for s, f in sim._srcfreq]
+        # ---- a survey with a single source-frequency pair: compute, replace
+        # the model in place (no clean), compute again: the second run gives
+        # the new model's results whatever the execution mode
+        p1 = simreplay.Problem(dict(one=True), seed=5)
+        s1 = p1.simulation(0, os.path.join(tmp, "fd1") if file_mode else None,
+                           "same")
+        s1.max_workers = maxw
+        s1.compute()
+        res["one_a"] = s1.data.synthetic.data.copy()
+        s1.model = p1.model(1)
+        s1.compute()
+        res["one_b"] = s1.data.synthetic.data.copy()
+        res["one_ef"] = s1.get_efield('TxED-1', 'f-1').field.copy()
         # ---- events -> one trace per run
         pids = {}
         ev = []
@@ -148,7 +161,9 @@ def _one_run(job):
                 return np.array_equal(np.asarray(a, dtype=complex), b,
                                       equal_nan=True)
             for key, val in (("syn", res["syn"]), ("syn", res["syn2"]),
-                             ("grad", res["grad"]), ("jvec", res["jvec"])):
+                             ("grad", res["grad"]), ("jvec", res["jvec"]),
+                             ("one_a", res["one_a"]), ("one_b", res["one_b"]),
+                             ("one_ef", res["one_ef"])):
                 if not same(val, key):
                     diffs.append(key)
             for k in range(len(res["ef"])):
@@ -167,6 +182,8 @@ def _one_run(job):
             put("syn", res["syn"])
             put("grad", res["grad"])
             put("jvec", res["jvec"])
+            for key in ("one_a", "one_b", "one_ef"):
+                put(key, res[key])
             for k in range(len(res["ef"])):
                 put(f"ef{k}", res["ef"][k])
             pack["misfit"] = res["misfit"]
